@@ -119,7 +119,10 @@ Landmarks == {
   Lm(<<>>, <<1>> \o [i \in 1..62 |-> 0], <<>>, <<>>, <<>>), Lm(<<>>, <<1>> \o [i \in 1..63 |-> 0], <<>>, <<>>, <<>>),
   Lm(<<>>, <<1>> \o [i \in 1..64 |-> 0], <<>>, <<>>, <<>>), Lm(<<>>, <<7>> \o [i \in 1..79 |-> (i * 3) % 10], <<>>, <<>>, <<>>),
   Lm(<<>>, <<0>>, [i \in 1..62 |-> 0] \o <<2,5>>, <<>>, <<7,0>>), Lm(<<>>, <<1,2>>, [i \in 1..58 |-> (i * 7) % 10], <<45>>, <<5>>) }
-InitLandmark == grp = "m" /\ \E m \in Landmarks, sg \in Signs : x = [m EXCEPT !.sg = IF m.sg = <<>> THEN sg ELSE m.sg]
+(* long literals with white space around the exponent: 60..68 characters once the blanks are removed (the conversion buffer holds 64) *)
+LongWs == { WithExp(MkShape(<<>>, <<49>>, TRUE, [i \in 1..n |-> 48 + ((i * 7) % 10)]), <<32>>, 69, <<32>>, <<43>>, <<48, 51>>) : n \in 54..62 }
+          \cup { WithExp(MkShape(<<>>, [i \in 1..n |-> 48 + ((i * 3 + 1) % 10)], FALSE, <<>>), <<32, 32>>, 101, <<>>, <<45>>, <<50>>) : n \in 58..64 }
+InitLandmark == grp = "m" /\ \E m \in Landmarks \cup LongWs, sg \in Signs : x = [m EXCEPT !.sg = IF m.sg = <<>> THEN sg ELSE m.sg]
 
 (* i: decimal integer literals around the limits of the four integer types *)
 Boundaries == LET ks == {7, 8, 15, 16, 31, 32, 63, 64} IN
